@@ -9,6 +9,11 @@ import json,re
 m=json.load(open('$d/meta.json'))
 print(' '.join(sorted({re.match(r'C\d+',x).group(0) for x in m['detected_by'] if re.match(r'C\d+',x)})))")
   [ -z "$props" ] && { echo "$id: no detecting check recorded"; continue; }
+  if [ -n "${ALLSEEDS_PROPS:-}" ]; then
+    # restrict the regression to some checks (those that changed)
+    keep=""; for p in $props; do case " $ALLSEEDS_PROPS " in *" $p "*) keep="$keep $p";; esac; done
+    props=$keep; [ -z "$props" ] && continue
+  fi
   out=$(SEEDCHECK_FAST=1 tools/seedcheck.sh $d $props 2>&1)
   for p in $props; do
     if echo "$out" | grep -q "^VIOLATION property=$p "; then echo "$id: caught by $p"; else echo "$id: NOT caught by $p"; fi
